@@ -60,10 +60,20 @@ def judge_observations(c, scen, res, deaths, must, name="observations"):
         c.report("death:mutation:%s" % dd["kind"], "process died verifying a blob", {"death": dd})
     if not obs:
         return stats
-    nd = "\n".join(json.dumps(o, separators=(",", ":")) for o in obs) + "\n"
-    r = c.tlc("Pkcs7Obs", "pkcs7obs.cfg", files={"obs.ndjson": nd}, name=name, timeout=1800, heap="8g")
-    judged = re.findall(r'<<"OBS_JUDGED", (\d+), (TRUE|FALSE)>>', r.out)
-    rejected = [int(x) for x in re.findall(r'<<"OBS_REJECTED", (\d+)>>', r.out)]
+    # judged in shards (one TLC run holds all observations of its shard in memory)
+    judged, rejected = [], []
+    SH = 30000
+    from concurrent.futures import ThreadPoolExecutor
+
+    def one(a):
+        nd = "\n".join(json.dumps(o, separators=(",", ":")) for o in obs[a:a + SH]) + "\n"
+        r = c.tlc("Pkcs7Obs", "pkcs7obs.cfg", files={"obs.ndjson": nd}, name="%s[%d:]" % (name, a), timeout=1800, heap="6g", workers=4)
+        return ([(str(int(k) + a), h) for k, h in re.findall(r'<<"OBS_JUDGED", (\d+), (TRUE|FALSE)>>', r.out)],
+                [int(x) + a for x in re.findall(r'<<"OBS_REJECTED", (\d+)>>', r.out)])
+    with ThreadPoolExecutor(max_workers=4) as ex:
+        for j, rj in ex.map(one, range(0, len(obs), SH)):
+            judged += j
+            rejected += rj
     if len(judged) + len(rejected) != len(obs):
         raise vf.FrameworkError("TLC judged %d of %d observations" % (len(judged) + len(rejected), len(obs)))
     stats["rule_holds"] = sum(1 for _, h in judged if h == "TRUE")
